@@ -78,6 +78,7 @@ structure Cfg where
   mode : Nat            -- 0 WRR smooth, 1 WLC smooth (BalanceMode WLC), 2 sticky (SessionSticky)
   failNum : Nat         -- health check FailNum of the cluster, 0 = no health-check configuration
   subs : List Sub       -- bal.subClusters (sorted by name)
+  od : Nat := 0         -- OutlierDetectionHttpCode: 0 "", 1 "5xx", 2 "503", 3 "4xx|503", 4 "3xx|404"
 
 /-- verdict of one HandleRequestFinish filter: `other` = Redirect / Response / Close (they stop the chain but
     FinishReq only reacts to Finish); `panic` = the filter panics -/
@@ -224,20 +225,33 @@ def realSel (cfg : Cfg) (bs : BalSt) (conn : Nat → Int) (si : Nat) : Option Na
       let r := smoothBalance sub.backs elig (bs.cur.getD si [])
       (r.1, { bs with cur := setAt bs.cur si r.2 })
 
+/-- checkBackendStatus(cluster.OutlierDetectionHttpCode(), status) for the settings the scenarios use -/
+def outlier (od status : Nat) : Bool :=
+  if od == 1 then status / 100 == 5
+  else if od == 2 then status == 503
+  else if od == 3 then status / 100 == 4 || status == 503
+  else if od == 4 then status / 100 == 3 || status == 404
+  else false
+
 /-- backend.OnFail / OnSuccess + UpdateStatus as clusterInvoke calls them after a RoundTrip to backend `b` -/
 def realNote (cfg : Cfg) (bs : BalSt) (b : Nat) (o : Rt) : BalSt :=
   let si := b / 8
   let j := b % 8
   let f := (bs.fails.getD si []).getD j 0
-  match o with
-  | .ok _ => { bs with fails := setAt bs.fails si (setAt (bs.fails.getD si []) j 0) }
-  | .connect | .write | .rhdr | .timeout =>
+  let failed : Option Bool :=        -- some true = OnFail, some false = OnSuccess, none = neither
+    match o with
+    | .ok st => some (outlier cfg.od st)
+    | .connect | .write | .rhdr | .timeout => some true
+    | _ => none
+  match failed with
+  | some false => { bs with fails := setAt bs.fails si (setAt (bs.fails.getD si []) j 0) }
+  | some true =>
     let f' := f + 1
     let bs1 := { bs with fails := setAt bs.fails si (setAt (bs.fails.getD si []) j f') }
     if cfg.failNum > 0 && f' ≥ cfg.failNum then
       { bs1 with up := setAt bs1.up si (setAt (bs1.up.getD si []) j false) }
     else bs1
-  | _ => bs
+  | none => bs
 
 def realPolicy : Policy := ⟨realSel, realNote⟩
 
